@@ -149,7 +149,7 @@ var checks = []Check{
 		Property: "C01",
 		Harnesses: []Harness{
 			{Dir: ".", Func: "H_C01_call", Quick: P{"maxdocs": 2, "tags": TNull | TInt32 | TString | TArray, "fixedclock": 1}, Thorough: P{"maxdocs": 2, "tags": TNull | TInt32 | TDouble | TString | TArray, "fixedclock": 1}},
-			{Dir: ".", Func: "H_C01_multi", Quick: P{"call": 0, "uniqa": 1, "maxdocs": 1, "tags": TNull | TInt32, "fixedclock": 1}, Thorough: P{"call": 0, "uniqa": 1, "maxdocs": 1, "tags": TNull | TInt32 | TArray, "fixedclock": 1}, Note: "InsertMany under a unique secondary index, then an insert that reuses the _id or key of a rejected item"},
+			{Dir: ".", Func: "H_C01_multi", Quick: P{"call": 0, "uniqa": 1, "maxdocs": 1, "tags": TNull | TInt32, "fixedclock": 1}, Thorough: P{"call": 0, "uniqa": 1, "maxdocs": 1, "tags": TNull | TInt32 | TString, "fixedclock": 1}, Note: "InsertMany under a unique secondary index, then an insert that reuses the _id or key of a rejected item"},
 			{Dir: ".", Func: "H_C01_multi", Quick: P{"maxdocs": 2, "fixedclock": 1}, Thorough: P{"maxdocs": 2, "tags": TNull | TInt32 | TDouble | TString | TArray, "fixedclock": 1}, Note: "InsertMany (ordered/unordered, duplicates), FindOneAndDelete/Replace, BulkWrite, index management through IndexView, failed insert + upsert + UpdateMany"},
 			lemClone,
 		},
